@@ -237,7 +237,10 @@ def controller(cx, cls="rk45", reverse=False, npoints=3, schedule=(0.5, 0.5)):
     ts = cx.const(torch.tensor([t0v + sgn * dtv * k for k in range(npoints)], dtype=torch.float64))
     y0 = cx.sym("y0", (1,))
 
+    tseen = []
+
     def fwrap(t, y):
+        tseen.append(t)
         return c00 + c01 * y + c10 * t
     # the scaled error norms of the successive step attempts are prescribed (concrete schedule of accepts/rejects);
     # the state y0 stays symbolic
@@ -268,6 +271,21 @@ def controller(cx, cls="rk45", reverse=False, npoints=3, schedule=(0.5, 0.5)):
     try:
         with torch.no_grad():
             yt = solve_ivp(fwrap, ts, y0, method=cls, atol=1.0, rtol=0.0)
+        # the caller's function is only ever evaluated inside the integration interval (in the caller's own time variable)
+        lo_t, hi_t = float(min(t0v, t0v + sgn * dtv * (npoints - 1))), float(max(t0v, t0v + sgn * dtv * (npoints - 1)))
+        inside = True
+        for t in tseen:
+            inside = inside and bool(t >= lo_t - 1e-9) and bool(t <= hi_t + 1e-9)
+        cx.claim_true("the right-hand side is only evaluated at times inside the integration interval", inside,
+                      detail="interval [%g, %g], %d evaluations" % (lo_t, hi_t, len(tseen)))
+        if reverse:
+            # time reversal: integrating towards decreasing t is the mirrored problem dy/ds = -f(-s, y) on increasing s = -t
+            main_log = dict(log)
+            log["calls"], log["attempts"], log["errs"] = 0, [], []
+            with torch.no_grad():
+                ym = solve_ivp(lambda s_, y: -(c00 + c01 * y + c10 * (-s_)), -ts, y0, method=cls, atol=1.0, rtol=0.0)
+            log.update(main_log)
+            cx.claim_eq("decreasing ts = the mirrored problem on increasing -ts (same controller schedule)", yt, ym)
     finally:
         solver_cls._error_norm = orig_norm
         ark.rk_step = orig_step
